@@ -284,6 +284,9 @@ fn run_world(case: &Case, built: &Built, merged: bool) -> RunOut {
         }
         out.applied = w.applies.lock().unwrap().applied.iter().filter(|a| a.node == 1).map(|a| (a.index, a.term)).collect();
         w.shutdown_all().await;
+        // (two worlds per case: without this the per-process work directory collects millions of empty
+        // directories in a thorough run and its removal at exit takes longer than the run itself)
+        crate::runner::rm_dir(&w.root);
         out
     })
 }
